@@ -302,6 +302,14 @@ struct C07 : vr::Driver {
         double D = deadlineAt.count(iv.fireTick) ? deadlineAt[iv.fireTick] : 1e18;
         if (iv.fireTime > D + 1e-9) return fail("fired-after-window", "hook fired at t=" + std::to_string(iv.fireTime) + " after the chain's window closed at " + std::to_string(D));
       }
+      // the kill action reports STOP only for a tick on which it signalled something (a victim that vanished while its hook ran is
+      // a FAILED attempt: the search goes on or the action returns CONTINUE)
+      for (auto& kv : retAt)
+        if (kv.second == 1) {
+          bool killed = false;
+          for (auto& a : o.attempts) killed |= a.tick == kv.first && (a.signalled() > 0 || a.killFileWritten);
+          if (!killed) return fail("stop-without-kill", "the kill action returned STOP at tick " + std::to_string(kv.first) + " although it signalled no process on that tick");
+        }
       // the cgroup attacked once an invocation is over is the cgroup the hook was fired for
       for (long id : order) {
         auto& iv = invs[id];
@@ -409,7 +417,7 @@ struct C07 : vr::Driver {
            "{finished, running} and per-tick events {none, victim removed, victim removed+re-created, fallback candidate removed} with <= k "
            "deviations over 5 ticks through the real Oomd::run; monitor: <=1 fire per attack, fired hook = first in priority order matching under the "
            "reference three-case relation, no fire after the window, no attack before finished-or-window-closed, invocation destroyed before the "
-           "first signal, never two invocations alive, no attack on a victim whose identity changed during the wait, the attack following an invocation hits the cgroup the hook ran for; states = distinct observable "
+           "first signal, never two invocations alive, no attack on a victim whose identity changed during the wait, the attack following an invocation hits the cgroup the hook ran for, STOP only with a signalled process; states = distinct observable "
            "hook/attack histories";
   }
   Json::Value bounds() override {
